@@ -211,6 +211,16 @@ pub fn run_trials(req: &Value) -> Value {
 			},
 			Err(_) => false,
 		};
+		// from a reader the YAML trial sees the stream as the read schedule delivers it: libyaml validates characters as it
+		// fills its buffer, so a bad byte in a later document is met before or after the first document is handed out
+		// depending on how much each read returns (same schedule as the detect_reader call below)
+		let yaml_reader = match xt::verif::yaml_encoder_from_reader(io::BufReader::new(SchedReader::new(&input, Sched::Fixed(3), None))) {
+			Ok(r) => match xt::verif::yaml_chunks(r).into_iter().next() {
+				Some(Ok((_, coll))) => coll,
+				_ => false,
+			},
+			Err(_) => false,
+		};
 		let ds = xt::verif::detect_slice(&input);
 		let dr = xt::verif::detect_reader(SchedReader::new(&input, Sched::Fixed(3), None));
 		let show = |d: io::Result<Option<xt::Format>>| match d {
@@ -218,7 +228,7 @@ pub fn run_trials(req: &Value) -> Value {
 			Ok(None) => Value::Null,
 			Err(e) => json!(format!("error: {e}")),
 		};
-		json!({"id": req["id"], "json": json, "json_reader": json_reader, "toml": toml_ok, "yaml": yaml, "detected_slice": show(ds), "detected_reader": show(dr)})
+		json!({"id": req["id"], "json": json, "json_reader": json_reader, "toml": toml_ok, "yaml": yaml, "yaml_reader": yaml_reader, "detected_slice": show(ds), "detected_reader": show(dr)})
 	}));
 	match res {
 		Ok(v) => v,
